@@ -102,6 +102,12 @@ func (sess *hopSession) start() {
 		//TODO(baumanl): Check closing behavior. how to end session completely
 	}
 
+	// A session admitted through authorization grants may only forward ports
+	// if one of its grants says so.
+	if sess.usingAuthGrant {
+		sess.forward.Authorize = sess.checkPF
+	}
+
 	// start accepting incoming tubes
 	logrus.Info("STARTING TUBE LOOP")
 
